@@ -47,6 +47,16 @@ def std_leaves(c: ast.Call, ev):
         if not isinstance(n, int) or n <= 0 or not (fill is None or isinstance(fill, int)):
             return oe.NOT_MODELLED
         return data + bytes([fill or 0]) * (-len(data) % n)
+    if f == "extend_block" and 2 <= len(c.args) + len(c.keywords) <= 3 and all(k.arg in ("data", "length", "padding") for k in c.keywords):
+        data = bytes(ev.ev(A.arg_of(c, 0, "data")))
+        n = ev.ev(A.arg_of(c, 1, "length"))
+        pd = A.arg_of(c, 2, "padding")
+        fill = ev.ev(pd) if pd is not None else 0
+        if not isinstance(n, int) or not isinstance(fill, int):
+            return oe.NOT_MODELLED
+        if n < len(data):
+            raise oe.ModelRaise(oe.Outcome("raise", None, c))
+        return data + bytes([fill]) * (n - len(data))
     if isinstance(c.func, ast.Attribute) and c.func.attr == "bit_length" and not c.args:
         v = ev.ev(c.func.value)
         if isinstance(v, int):
@@ -102,11 +112,16 @@ class RoundTrip:
         except oe.Unsupported as ex:
             raise AnalysisError(f"round trip of {self.cname}: `{text}` left the fragment: {ex}")
 
-    def run(self, ctor_kwargs: Dict[str, Any], writer: str = "export", reader: str = "parse", reader_extra: str = "") -> Tuple[Any, Any, Any]:
-        """(fields of the built object, exported bytes, fields of the parsed object); a raise on the model is reported as ('raise', where)."""
+    def run(self, ctor_kwargs: Dict[str, Any], writer: str = "export", reader: str = "parse", reader_extra: str = "", setup: Tuple[str, ...] = ()) -> Tuple[Any, Any, Any]:
+        """(fields of the built object, exported bytes, fields of the parsed object); a raise on the model is reported as ('raise', where).
+        Keys starting with `__setup` hold method calls on `obj` that complete the construction (obj.add_x(...))."""
+        setup = tuple(setup) + tuple(v for k, v in ctor_kwargs.items() if k.startswith("__setup"))
+        ctor_kwargs = {k: v for k, v in ctor_kwargs.items() if not k.startswith("__setup")}
         args = ", ".join(f"{k}={k}" for k in ctor_kwargs)
         try:
             obj = self.ev(f"{self.cname}({args})", ctor_kwargs)
+            for stmt in setup:
+                self.ev(stmt, {"obj": obj})
         except oe.ModelRaise as mr:
             return ("raise", "constructor", str(mr)), None, None
         try:
